@@ -64,6 +64,10 @@ def classify(monitor, item, spec, res):
             # lazily expanded graph: the producing worker removed the (removable) state before the worker of the dependant
             # had picked the producer - involvement in a node is registered when it is picked, not when a dependant is expanded
             feats.append("lazy-expansion-state-removed-before-the-dependant-worker-picked-its-producer")
+        elif removers and any(c.get("exclude") for c in spec.get("classes", [])):
+            # pre-parsed graph with worker-asymmetric copies: the dependant exists for one worker only, the worker without it
+            # removed the state before the other one picked the producer
+            feats.append("pre-parsed-state-removed-before-the-dependant-worker-picked-its-producer")
         elif res.get("initial_peer_only", {}).get(vmst):
             feats.append("state-initially-only-in-a-peer-own-pool")
         elif spec["workers"][0]["spawner"] != "lxc" and "swarm" not in scope:
@@ -93,8 +97,10 @@ def _one(args):
     os.chdir(scratch)
     rng = random.Random(seed * 1000003 + idx)
     spec = travlib.gen_spec(rng, profile)
-    if rng.random() < 0.3:
-        spec["lazy"] = True      # flat leaves expanded on demand during the traversal (monitors only, see DESIGN.md 11.2)
+    if rng.random() < 0.3 and not any(c.get("exclude") for c in spec["classes"]):
+        # flat leaves expanded on demand during the traversal (monitors only, see DESIGN.md 11.2); not combined with
+        # worker-asymmetric copies: the harness's stand-in for the lazy parser does not emulate incompatible workers
+        spec["lazy"] = True
     return _run_spec(spec, monitors, (seed, idx, profile))
 
 
